@@ -224,7 +224,8 @@ def check_program(spec, mat, col, case, nontrivial=False):
             qn = f"{mat.modname(named['mod'])}.{named['name']}"
             forms["string"] = lambda: graph.static_order(qn)
             forms["forwardref"] = lambda: graph.static_order(FR(named["name"], module=mat.modname(named["mod"])))
-    elif "." not in mat.root_expr and "M0" not in mat.root_expr and "'" not in mat.root_expr:
+    elif "." not in mat.root_expr and "M0" not in mat.root_expr and "'" not in mat.root_expr and "Literal" not in mat.root_expr:
+        # (only text every module can resolve: builtin names; the bare name `Literal` is bound by the program's modules only)
         forms["string"] = lambda: graph.static_order(mat.root_expr)
     wrapper_mod = mat.modules.get(0) or next(iter(mat.modules.values()), None)
     if wrapper_mod is not None and spec["k"] not in ("final", "classvar", "optional", "union", "literal"):
